@@ -1466,14 +1466,16 @@ fn main() {
     }
 
     let thorough = ctx.is_thorough();
-    rep.must("h2/secure", 1_000_000);
+    // Secure counts depend on the validator under test: a correct (stricter) one accepts only the entailed
+    // proofs (≈ 0.8 M per quick run) and, at cuts, only DS-absence (≈ 3 k); thresholds stay well below that.
+    rep.must("h2/secure", 100_000);
     rep.must("h2/bogus", 3_000_000);
     rep.must("h2/secure_entailed", 200_000);
     for (k, min) in [("nxdomain", 50_000), ("nodata", 10_000), ("wildcard-expansion", 2_000), ("wildcard-nodata", 10_000), ("ent-nodata", 1_000), ("ds-nodata-at-cut", 100)] {
         rep.must(&format!("secure_true/{k}"), min);
     }
     rep.must("h2/cut_case_calls", 100_000);
-    rep.must("h2/cut_case_secure", 10_000);
+    rep.must("h2/cut_case_secure", 300);
     rep.must("h2/zones_all_subsets_swept", 16);
     rep.must("h2/calls_in_all_subset_sweeps", 1_000_000);
     rep.must("h2/calls_soa_absent", 1_000_000);
